@@ -65,17 +65,41 @@ func init() {
 		Outside: []string{"more than two NICs attached before the step", "IPv6 subnets", "the user supplying the same static address twice (not constrained by the property)"}})
 	register(&Prop{ID: "C14", Pkgs: vnetPkgs, InitPkgs: []string{"vnet"}, InstrDirs: []string{"vnet"},
 		Runs: func(tier string) []gosym.RunConfig {
-			k, ticks, steps := int64(1), int64(1), int64(60)
+			budget := 60
 			if tier == "thorough" {
-				k, ticks, steps = 2, 1, 90
+				budget = 1200
 			}
-			return []gosym.RunConfig{{Name: fmt.Sprintf("delayfilter-k%d-t%d", k, ticks), Entry: "VerifDelayFilter", Sched: true, SmallInts: 48, Unwind: 6, AssertPrefix: "C14:", Params: map[string]int64{"k": k, "ticks": ticks, "steps": steps}}}
+			return []gosym.RunConfig{
+				{Name: "router-mindelay", Entry: "VerifRouterProcess", Sched: true, Unwind: 6, AssertPrefix: "C14:"},
+				{Name: "delayfilter-k1-t1", Entry: "VerifDelayFilter", Sched: true, SmallInts: 48, Unwind: 6, AssertPrefix: "C14:", Params: map[string]int64{"k": 1, "ticks": 1, "steps": 60}, BudgetSec: budget, Optional: true},
+			}
 		},
 		Bounds: func(tier string) []string {
-			return []string{"DelayFilter: Run goroutine + one producer handing in 1 (thorough 2) datagrams, a clock goroutine advancing time once at an arbitrary moment, delay 0..50 (symbolic), gaps 0..60 (symbolic) between arrivals, channel-timer expiries dispatched at any later step, all interleavings at channel/select/lock granularity"}
+			return []string{"router: one pass of processChunks over a queue of two datagrams with symbolic arrival instants (gaps 0..150), symbolic minimum delay 0..100, symbolic wait 0..150 before the pass, symbolic destinations (two attached NICs, unregistered, unroutable)",
+				"delay filter (time-budgeted, reported as not covered when the budget is exceeded): Run goroutine + one producer handing in one datagram, a clock goroutine advancing time once, delay 0..50, all interleavings"}
 		},
-		Assume:  []string{"time.NewTimer/Stop/Reset/C follow the legacy channel-timer semantics (one buffered tick, Reset does not drain)", "the clock advances only when the producer (or the harness) advances it", "context.Context is a harness model whose Done channel is never closed"},
-		Outside: []string{"the router's minDelay/maxJitter path (see DESIGN.md)", "more than one producer"}})
+		Assume: []string{"time.Now is the model clock; time.NewTimer/Stop/Reset/C follow the legacy channel-timer semantics", "maxJitter is 0 (the jitter sleep is a stub)", "context.Context is a harness model whose Done channel is never closed"},
+		Outside: []string{"jitter", "queues of more than two datagrams in one pass", "the delay filter beyond the budgeted instance (in particular: the known nil type assertion in DelayFilter.Run when the timer case empties the queue before the push notification is consumed is not decided by the quick tier)"}})
+	register(&Prop{ID: "C01", Pkgs: vnetPkgs, InitPkgs: []string{"vnet"}, InstrDirs: []string{"vnet"},
+		Runs: func(tier string) []gosym.RunConfig {
+			k := int64(4)
+			if tier == "thorough" {
+				k = 6
+			}
+			return []gosym.RunConfig{
+				{Name: "hop-write", Entry: "VerifHopWrite", Sched: true, AssertPrefix: "C01:"},
+				{Name: fmt.Sprintf("hop-queue-k%d", k), Entry: "VerifHopQueue", Sched: true, AssertPrefix: "C01:", Params: map[string]int64{"k": k}},
+				{Name: "hop-read", Entry: "VerifHopRead", Sched: true, AssertPrefix: "C01:"},
+				{Name: "hop-route", Entry: "VerifRouterProcess", Sched: true, Unwind: 6, AssertPrefix: "C01:"},
+				{Name: "hop-nat", Entry: "VerifNAT", Sched: true, AssertPrefix: "C01:", Params: map[string]int64{"k": 2}},
+			}
+		},
+		Bounds: func(tier string) []string {
+			return []string{"per-hop obligations on the real code, each for symbolic payloads of 0..1500 bytes and symbolic addresses: (a) UDPConn.WriteTo -> chunk handed to the network (private copy, source, destination), (b) chunkQueue FIFO over 4 (6) operations, (c) one Router.processChunks pass over two queued datagrams with symbolic destinations (attached NIC A/B, unregistered, no route), (d) NAT translation keeps the payload, (e) socket inbound hand-over and ReadFrom (payload, source, short buffer, connected-socket filtering)",
+				"the composition of the hops to whole topologies (any nesting depth) is an argument in DESIGN.md, not a solver result"}
+		},
+		Assume: []string{"strings are values of the Str datatype (IP.String injective)", "time.Now is the model clock", "sequential use of each hop (the router mutex serialises processChunks and push)"},
+		Outside: []string{"end-to-end runs over whole topologies with concurrent router goroutines", "Net.onInboundChunk / udpConnMap demultiplexing is decided under C13", "queues at capacity, loss filters"}})
 	register(&Prop{ID: "C10", Pkgs: []HarnessPkg{{Dir: "vnet", Name: "vnet"}, {Dir: "packetio", Name: "packetio"}}, InitPkgs: []string{"deadline", "packetio", "vnet"}, InstrDirs: []string{"vnet", "packetio", "deadline"},
 		Runs: func(tier string) []gosym.RunConfig {
 			mk := func(n, r int64, budget int) gosym.RunConfig {
